@@ -186,11 +186,26 @@ def make_canary(gen_path, info, out_path):
             continue
         ln = a + text.count("\n", 0, pos)
         inserts.setdefault(ln, []).append((pos - (text.rfind("\n", 0, pos) + 1), r["name"]))
+    # Verus wants `hide(f);` headers first in a body: a canary goes after them
+    after_hide = {}
+    for ln in list(inserts):
+        j = ln  # 0-based index of the line after ln
+        last = None
+        while j < len(lines) and (not lines[j].strip() or lines[j].strip().startswith("//") or re.match(r"^\s*hide\(.*\);\s*(//.*)?$", lines[j])):
+            if re.match(r"^\s*hide\(", lines[j]):
+                last = j + 1
+            j += 1
+        if last is not None and lines[ln - 1].rstrip().endswith("{"):
+            after_hide[last] = inserts.pop(ln)
     out = []
     for ln, text in enumerate(lines, 1):
         if ln in inserts:
             col, name = inserts[ln][0]
             text = text[:col + 1] + " assert(false); /*CANARY " + name + "*/ " + text[col + 1:]
+            expected[name] = ln
+        if ln in after_hide:
+            col, name = after_hide[ln][0]
+            text = text + " assert(false); /*CANARY " + name + "*/ "
             expected[name] = ln
         out.append(text)
     open(out_path, "w", encoding="utf-8").write("\n".join(out))
